@@ -30,6 +30,8 @@ func init() {
 				Doc: "A piece cut from Accept/Content-Type is trimmed after its last cut and before it is compared with Produces/Consumes entries; trimming first and cutting afterwards leaves the blank before ';' in the token and a legal header is refused (or a different route admitted)."},
 			{ID: "C01.f", Template: "T-SIBLING", Required: false, Run: ruleSubmatchContext,
 				Doc: "'Custom-verb suffix equal': text captured by a group of a package-level pattern (the verb letters out of ':verb') is used to test the request token only with the pattern's literal context put back (':' in front). Testing with the letters alone takes 'nocancel' for ':cancel'."},
+			{ID: "C01.i", Template: "T-FRESH", Required: true, Run: ruleNoSharedBackingArrays,
+				Doc: "'Every If-condition of the route': the condition list of a route is its own (same obligations as C06.g) - a list built by appending onto the WebService's list shares its backing array with the next route's."},
 			{ID: "C01.h", Template: "T-GUARD", Required: true, Run: ruleMediaMatchers,
 				Doc: "Inside the media-type matchers: 'admitted' is answered only under an equality with an element of the declared Consumes/Produces list, under 'nothing declared', under 'no Content-Type sent', or (Accept only) for a */* range of the request. A loop shared between the two matchers is analysed per caller: the Accept-only wildcard rule must not admit `Content-Type: */*`."},
 			{ID: "C01.g", Template: "T-ARGS", Required: false, SourceOnly: true, Run: ruleArgumentOrder,
